@@ -5,7 +5,7 @@ from . import auto
 
 PROP = 'C13'
 PREDICATE = 'C13'
-LEAN_TARGETS = ['LLTD.Props.C13', 'LLTD.Props.C13T']
+LEAN_TARGETS = ['LLTD.Props.C13', 'LLTD.Props.C13T', 'LLTD.Props.C13TT']
 VARIANT = 'plain'
 RULE = ('band_update_stats / band_choose_hello_time on band states set through the public struct: r dense at '
         '{0..20, 9768..9772, 65535..65537, 2^k and 2^k±1, 2^32-1} x prior Ni x begun, plus seeded random r; thorough adds '
